@@ -141,16 +141,12 @@ func main() {
 	summarize := map[string]bool{}
 	var stubs, sums []string
 	var setargs []setArg
+	var pending [][2]string
 	for _, src := range harnessSrc {
 		for _, m := range directiveRe.FindAllStringSubmatch(src, -1) {
 			switch m[1] {
 			case "stub":
-				to := hp.Func(m[3])
-				if to == nil {
-					fail(fmt.Errorf("stub replacement %s not found in %s", m[3], hp.Pkg.Path()))
-				}
-				redirects[m[2]] = to
-				stubs = append(stubs, m[2]+" => "+m[3])
+				pending = append(pending, [2]string{m[2], m[3]})
 			case "summarize":
 				summarize[m[2]] = true
 				sums = append(sums, m[2])
@@ -169,10 +165,29 @@ func main() {
 	for f := range allFns {
 		names[f.String()] = true
 	}
-	for t := range redirects {
-		if !names[t] {
-			fail(fmt.Errorf("stub target %s does not exist in the program (renamed or removed?)", t))
+	byName := map[string]*ssa.Function{}
+	for f := range allFns {
+		byName[f.String()] = f
+	}
+	for _, pr := range pending {
+		// the replacement is a harness function, or any function of the program by full name
+		to := hp.Func(pr[1])
+		if to == nil {
+			to = byName[pr[1]]
 		}
+		if to == nil {
+			fail(fmt.Errorf("stub replacement %s not found", pr[1]))
+		}
+		// the target may be a body-less harness declaration (alias to an unexported function)
+		target := pr[0]
+		if f := hp.Func(target); f != nil {
+			target = f.String()
+		}
+		if !names[target] {
+			fail(fmt.Errorf("stub target %s does not exist in the program (renamed or removed?)", pr[0]))
+		}
+		redirects[target] = to
+		stubs = append(stubs, pr[0]+" => "+pr[1])
 	}
 	for t := range summarize {
 		if !names[t] {
